@@ -95,7 +95,7 @@ pub fn base_files() -> BTreeMap<&'static str, String> {
 #[derive(Clone, Debug)]
 pub struct Case {
     pub faults: Vec<usize>,
-    pub crlf: usize, // 0 none, 1 operation files, 2 schema files
+    pub crlf: usize, // 0 none, 1 operation files CR LF, 2 schema files CR LF, 3 operation files with lone CR
     pub command: usize,
     pub discover: bool,
     pub mode: usize,
@@ -122,7 +122,7 @@ fn gen_case(c: &mut Chooser, slots: usize, base_command: usize) -> Case {
     faults.sort();
     Case {
         faults,
-        crlf: c.choose("line-endings", 3),
+        crlf: c.choose("line-endings", 4),
         command: (base_command + c.choose("command", 3)) % 3,
         discover: c.flag("config.discovered"),
         mode: c.choose("generate.mode", 3),
@@ -157,7 +157,13 @@ fn build(case: &Case) -> Option<Built> {
     let mut project = Project::default();
     for (k, v) in files {
         let is_schema = k.starts_with("schema/");
-        let v = if (case.crlf == 1 && !is_schema) || (case.crlf == 2 && is_schema) { v.replace('\n', "\r\n") } else { v };
+        let v = if (case.crlf == 1 && !is_schema) || (case.crlf == 2 && is_schema) {
+            v.replace('\n', "\r\n")
+        } else if case.crlf == 3 && !is_schema {
+            v.replace('\n', "\r")
+        } else {
+            v
+        };
         inputs.insert(k.to_string(), (is_schema, v.clone()));
         project.files.insert(k.to_string(), v);
     }
@@ -252,10 +258,14 @@ fn token_starts(text: &str) -> Option<BTreeSet<(u32, u32)>> {
     Some(s)
 }
 
+/// lines of a GraphQL text: LF, CR LF and a lone CR all end a line
+fn source_lines(text: &str) -> Vec<String> {
+    text.replace("\r\n", "\n").replace('\r', "\n").split('\n').map(|s| s.to_string()).collect()
+}
+
 fn inside(text: &str, line: u32, col: u32) -> bool {
-    let lines: Vec<&str> = text.split('\n').collect();
-    match lines.get(line as usize) {
-        Some(l) => (col as usize) <= l.trim_end_matches('\r').chars().count(),
+    match source_lines(text).get(line as usize) {
+        Some(l) => (col as usize) <= l.chars().count(),
         None => false,
     }
 }
@@ -396,14 +406,15 @@ pub fn check_case(case: &Case, rep: &Reporter, ctr: &Counters, picks: Vec<u16>, 
                     v(format!("diagnostic_file_kind[{fmt}:{k}]"), format!("diagnostic of fileType {k} names {}", d.path), json!({"diagnostic": format!("{d:?}")}));
                 }
             }
-            let ending = if text.contains("\r\n") { ":crlf" } else { "" };
+            let ending = if text.contains("\r\n") { ":crlf" } else if text.contains('\r') { ":cr" } else { "" };
             if !inside(text, d.line, d.col) {
                 v(format!("position_outside_file[{fmt}{ending}]"), format!("{}:{}:{} (0-based) is outside the file", d.path, d.line, d.col), json!({"diagnostic": format!("{d:?}")}));
                 continue;
             }
             if let Some(starts) = token_starts(text) {
                 if !starts.contains(&(d.line, d.col)) {
-                    let line_text = text.split('\n').nth(d.line as usize).unwrap_or("");
+                    let lines = source_lines(text);
+                    let line_text = lines.get(d.line as usize).map_or("", |s| s.as_str());
                     let non_ascii = line_text.chars().take(d.col as usize + 4).any(|c| !c.is_ascii());
                     v(format!("position_not_at_token_start[{fmt}{ending}{}]", if non_ascii { ":after-non-ascii" } else { "" }), format!("{}:{}:{} (0-based) is not the start of a token: {:?}", d.path, d.line, d.col, d.message), json!({"diagnostic": format!("{d:?}"), "line": line_text}));
                 }
@@ -548,6 +559,10 @@ pub fn run(args: &RunArgs) -> i32 {
         let stats = explore(&ExploreCfg { max_dev: dev, threads: args.threads, budget: Duration::from_secs(budget) }, |c: &mut Chooser| {
             let case = gen_case(c, slots, base_command);
             if !distinct.insert(fnv(format!("{case:?}").as_bytes())) {
+                return;
+            }
+            // quick tier: lone-CR operation files take part in projects of up to two deviations
+            if args.quick() && c.deviations() >= 3 && case.crlf == 3 {
                 return;
             }
             // quick tier: the human rendering is compared for projects of up to two deviations; the machine-readable
@@ -727,9 +742,13 @@ fn part_history(args: &RunArgs, rep: &Reporter) -> J {
         BreakAnOperation,
         RepairTheOperation,
         TouchOneOutput,
+        /// only the configuration file changes: the TypeScript type of a scalar
+        EditTheConfiguration,
+        /// the schema declaration file is edited by hand (it becomes newer than every input)
+        TouchTheSchemaOutput,
     }
     use Ev::*;
-    let alphabet = [DeleteMaps, DeleteDeclarations, DeleteAllOutputs, CommentLineOnInputs, BreakAnOperation, RepairTheOperation, TouchOneOutput];
+    let alphabet = [DeleteMaps, DeleteDeclarations, DeleteAllOutputs, CommentLineOnInputs, BreakAnOperation, RepairTheOperation, TouchOneOutput, EditTheConfiguration, TouchTheSchemaOutput];
     let depth = if args.quick() { 2 } else { 3 };
     let mut seqs: Vec<Vec<Ev>> = vec![];
     for len in 1..=depth {
@@ -785,6 +804,17 @@ fn part_history(args: &RunArgs, rep: &Reporter) -> J {
                     }
                     TouchOneOutput => {
                         if let Some(k) = tree.keys().find(|k| is_output(k) && k.ends_with(".d.ts")) {
+                            let _ = std::fs::write(dir.join(k), "// edited by hand\n");
+                        }
+                    }
+                    EditTheConfiguration => {
+                        for (_, v) in inputs.files.iter_mut().filter(|(k, _)| k.ends_with(".yaml")) {
+                            *v = if v.contains("Date: string\n") { v.replace("Date: string\n", "Date: \"Date | string\"\n") } else { v.replace("Date: \"Date | string\"\n", "Date: string\n") };
+                        }
+                        cli::overwrite(&dir, &inputs);
+                    }
+                    TouchTheSchemaOutput => {
+                        if let Some(k) = tree.keys().find(|k| is_output(k) && k.ends_with("schema.d.ts")) {
                             let _ = std::fs::write(dir.join(k), "// edited by hand\n");
                         }
                     }
